@@ -17,11 +17,13 @@
 //!   fclose <node> <chan>            force-close, broadcasting the latest commitment (legacy channels only)
 //!   snapcommit <node> <chan> | minesnap <k>   remember a holder commitment now / broadcast it later
 //!   mine | blocks <n> | tick <node>
+//!   halfpoll                        the sender's peer messages are fetched, its events are not handled
 //!   freeze | unfreeze               stop / resume polling the sender (events, messages, forwards): what it has not
 //!                                   fetched before a restart it has to recover from its monitors
 //!   snapshot                        serialize the sender's ChannelManager (a legal persisted state)
 //!   reload <k>                      (at most twice) restart the sender from its latest monitors and its
-//!                                   k-th snapshot taken since the previous restart
+//!                                   k-th snapshot taken since the previous restart (k >= 1000: the
+//!                                   (k-1000)-th latest)
 //! Output: {"c03s":1,"ok":..,"why":..,"step":..,"payments":[..]}
 use std::collections::{BTreeMap, HashSet, VecDeque};
 use std::io::{self, BufRead};
@@ -56,6 +58,12 @@ struct Pay {
 	sent: Vec<usize>,   // restart epochs in which PaymentSent was seen
 	failed: Vec<usize>, // restart epochs in which PaymentFailed was seen
 	stale_failed: bool,
+	/// a restart from an older manager failed a part of it whose HTLC is still live in the (newer)
+	/// monitor of its channel
+	stale_live: bool,
+	created_step: usize,
+	/// (step, epoch) at which a resolution of the payment or of one of its parts was handled
+	resolutions: Vec<(usize, usize)>,
 	/// every part is too small to be sure of a commitment-transaction output: if its channel closes
 	/// on chain before a claim is committed the amount is forfeited and the claim does not settle
 	dusty: bool,
@@ -76,6 +84,12 @@ struct World<'p> {
 	decided: Vec<(PaymentHash, u8)>, // 0 claim, 1 fail, 2 silence
 	recip_claimed: HashSet<PaymentHash>,
 	snapshots: Vec<Vec<u8>>,
+	/// per snapshot: the step after which it was taken and the payments it lists as pending
+	snap_info: Vec<(usize, HashSet<PaymentId>)>,
+	/// per restart (epoch k is entered by reloads[k-1]): (step of the snapshot used, payments pending
+	/// in it, step of the restart)
+	reloads: Vec<(usize, HashSet<PaymentId>, usize)>,
+	scids: std::collections::HashMap<u64, ChannelId>,
 	commit_snaps: Vec<Transaction>,
 	epoch: usize,
 	step: usize,
@@ -112,21 +126,101 @@ impl<'p> World<'p> {
 		self.violations.push((s, "stale", why));
 	}
 
-	/// HTLCs of the payment that are still pending at the sender: in a live channel (committed or in
-	/// the holding cell) or as an unresolved output / pending HTLC of a closed channel's monitor.
+	fn take_snapshot(&mut self, nodes: &[Node]) {
+		let pending: HashSet<PaymentId> = nodes[0]
+			.node
+			.list_recent_payments()
+			.into_iter()
+			.filter_map(|r| match r {
+				RecentPaymentDetails::Pending { payment_id, .. } => Some(payment_id),
+				_ => None,
+			})
+			.collect();
+		self.snapshots.push(nodes[0].node.encode());
+		self.snap_info.push((self.step, pending));
+	}
+
+	/// Restart `k` (1-based) used a manager that had not yet processed any fulfil of the payment.
+	fn older_than_fulfil(&self, k: usize, p: &Pay) -> bool {
+		let (snap_step, pending, _) = &self.reloads[k - 1];
+		pending.contains(&p.id) || p.created_step > *snap_step
+	}
+
+	/// Restart `k` used a manager older than the monitors it was combined with.
+	fn reload_is_stale(&self, k: usize) -> bool {
+		k >= 1 && self.reloads[k - 1].0 < self.reloads[k - 1].2
+	}
+
+	/// HTLCs of the payment pending in one channel of the sender: in the live channel (committed or in
+	/// the holding cell), as an unresolved HTLC output of its monitor, or - the manager has closed the
+	/// channel, no commitment is confirmed yet - in a counterparty commitment the monitor knows of.
+	fn pending_in_channel(&self, nodes: &[Node], chan: &ChannelId, hash: &PaymentHash) -> usize {
+		let mut n = 0;
+		let mut open = false;
+		for ch in nodes[0].node.list_channels() {
+			if ch.channel_id == *chan {
+				open = true;
+				n += ch.pending_outbound_htlcs.iter().filter(|h| h.payment_hash == *hash).count();
+			}
+		}
+		if let Ok(m) = nodes[0].chain_monitor.chain_monitor.get_monitor(*chan) {
+			let bal = m.get_claimable_balances();
+			let mut k1 = 0;
+			let mut unconfirmed = false;
+			for b in bal.iter() {
+				match b {
+					Balance::MaybeTimeoutClaimableHTLC { payment_hash, .. } if *payment_hash == *hash => k1 += 1,
+					Balance::ClaimableOnChannelClose { .. } => unconfirmed = true,
+					_ => {},
+				}
+			}
+			let k2 = if !open && unconfirmed {
+				let (outbound, _, _) = lightning::chain::channelmonitor::verif_hooks_fwd::monitor_htlc_view(&*m);
+				outbound.iter().filter(|(h, pre)| *h == *hash && !*pre).count()
+			} else {
+				0
+			};
+			if std::env::var("H_TRACE").is_ok() && k1.max(k2) > 0 {
+				eprintln!("TRACE pending in monitor of {}: {} as HTLC output, {} in a counterparty commitment (channel open in the manager: {})", chan, k1, k2, open);
+			}
+			n += k1.max(k2);
+		}
+		n
+	}
+
+	/// HTLCs of the payment that are still pending at the sender, over all its channels and monitors.
 	fn pending_htlcs(&self, nodes: &[Node], hash: &PaymentHash) -> usize {
 		let mut n = 0;
-		for ch in nodes[0].node.list_channels() {
-			n += ch.pending_outbound_htlcs.iter().filter(|h| h.payment_hash == *hash).count();
+		for chan in nodes[0].chain_monitor.chain_monitor.list_monitors() {
+			n += self.pending_in_channel(nodes, &chan, hash);
 		}
-		for b in nodes[0].chain_monitor.chain_monitor.get_claimable_balances(&[]) {
-			if let Balance::MaybeTimeoutClaimableHTLC { payment_hash, .. } = b {
-				if payment_hash == *hash {
-					n += 1;
+		n
+	}
+
+	/// The node's outgoing peer messages go to the queues of the connected peers. (Fetching them also
+	/// makes the manager take the pending MonitorEvents out of its monitors and free holding cells.)
+	fn collect_msgs(&mut self, nodes: &[Node], i: usize) -> bool {
+		let mut progressed = false;
+		for ev in nodes[i].node.get_and_clear_pending_msg_events() {
+			let to_pk = match &ev {
+				MessageSendEvent::UpdateHTLCs { node_id, .. }
+				| MessageSendEvent::SendRevokeAndACK { node_id, .. }
+				| MessageSendEvent::SendChannelReestablish { node_id, .. }
+				| MessageSendEvent::SendChannelReady { node_id, .. }
+				| MessageSendEvent::SendAnnouncementSignatures { node_id, .. }
+				| MessageSendEvent::SendChannelUpdate { node_id, .. }
+				| MessageSendEvent::SendShutdown { node_id, .. }
+				| MessageSendEvent::HandleError { node_id, .. } => Some(*node_id),
+				_ => None,
+			};
+			if let Some(to) = to_pk.and_then(|pk| idx_of(nodes, &pk)) {
+				if self.connected.contains(&key(i, to)) {
+					self.queues.entry((i, to)).or_insert_with(VecDeque::new).push_back(ev);
+					progressed = true;
 				}
 			}
 		}
-		n
+		progressed
 	}
 
 	/// Collects peer messages into the queues, lets every node forward, records events and
@@ -137,24 +231,8 @@ impl<'p> World<'p> {
 			if i == 0 && self.frozen {
 				continue;
 			}
-			for ev in nodes[i].node.get_and_clear_pending_msg_events() {
-				let to_pk = match &ev {
-					MessageSendEvent::UpdateHTLCs { node_id, .. }
-					| MessageSendEvent::SendRevokeAndACK { node_id, .. }
-					| MessageSendEvent::SendChannelReestablish { node_id, .. }
-					| MessageSendEvent::SendChannelReady { node_id, .. }
-					| MessageSendEvent::SendAnnouncementSignatures { node_id, .. }
-					| MessageSendEvent::SendChannelUpdate { node_id, .. }
-					| MessageSendEvent::SendShutdown { node_id, .. }
-					| MessageSendEvent::HandleError { node_id, .. } => Some(*node_id),
-					_ => None,
-				};
-				if let Some(to) = to_pk.and_then(|pk| idx_of(nodes, &pk)) {
-					if self.connected.contains(&key(i, to)) {
-						self.queues.entry((i, to)).or_insert_with(VecDeque::new).push_back(ev);
-						progressed = true;
-					}
-				}
+			if self.collect_msgs(nodes, i) {
+				progressed = true;
 			}
 		}
 		for i in 0..nodes.len() {
@@ -187,29 +265,63 @@ impl<'p> World<'p> {
 									why = Some("PaymentSent: preimage does not hash to the payment hash".to_string());
 								}
 								p.sent.push(ep);
+								p.resolutions.push((self.step, ep));
 							}
 							if let Some(w) = why {
 								self.bad(w);
 							}
 						},
+						Event::PaymentPathFailed { payment_id: Some(id), path, .. } => {
+							let ep = self.epoch;
+							let step = self.step;
+							let first_chan = path.hops.first().and_then(|h| self.scids.get(&h.short_channel_id)).cloned();
+							let idx = self.pays.iter().position(|p| p.id == *id);
+							if let Some(ix) = idx {
+								let h = self.pays[ix].hash;
+								let live_in_monitor = self.first_after_reload
+									&& self.reload_is_stale(ep)
+									&& self.pays[ix].epoch < ep
+									&& first_chan.map(|c| self.pending_in_channel(nodes, &c, &h) > 0).unwrap_or(false);
+								if std::env::var("H_TRACE").is_ok() {
+									eprintln!("TRACE pathfailed first_after_reload {} stale {} epoch {} first_chan {:?} scid {:?} known {:?}", self.first_after_reload, self.reload_is_stale(ep), self.pays[ix].epoch, first_chan, path.hops.first().map(|h| h.short_channel_id), self.scids);
+								}
+								let p = &mut self.pays[ix];
+								p.resolutions.push((step, ep));
+								if live_in_monitor {
+									p.stale_live = true;
+								}
+							}
+						},
 						Event::PaymentFailed { payment_id, .. } => {
 							let ep = self.epoch;
-							let hash = self.pays.iter().find(|p| p.id == *payment_id).map(|p| p.hash);
-							if let Some(h) = hash {
+							let step = self.step;
+							if let Some(ix) = self.pays.iter().position(|p| p.id == *payment_id) {
+								let h = self.pays[ix].hash;
 								let n = self.pending_htlcs(nodes, &h);
-								let settled_before_restart = self.claimed_epoch.get(&h).map(|e| *e < ep).unwrap_or(false)
-									|| self.pays.iter().any(|p| p.hash == h && p.sent.iter().any(|e| *e < ep));
-								let created_before_restart = self.pays.iter().any(|p| p.hash == h && p.epoch < ep);
-								if !settled_before_restart && n > 0 && created_before_restart && self.first_after_reload {
-									if let Some(p) = self.pays.iter_mut().find(|p| p.hash == h) {
-										p.stale_failed = true;
+								// settled (claim accepted by the recipient or PaymentSent reported) in an earlier
+								// epoch, and a restart in between used a manager that had not processed any fulfil
+								let settle_epoch = {
+									let p = &self.pays[ix];
+									let a = self.claimed_epoch.get(&h).cloned();
+									let b = p.sent.iter().min().cloned();
+									match (a, b) {
+										(Some(x), Some(y)) => Some(x.min(y)),
+										(x, y) => x.or(y),
 									}
-									self.bad_stale("right after a restart from an older manager, PaymentFailed is reported for a payment whose HTLC (added to the holding cell before, committed after the manager was persisted) is still pending in the monitor".to_string());
-								} else if settled_before_restart {
-									if let Some(p) = self.pays.iter_mut().find(|p| p.hash == h) {
-										p.stale_failed = true;
+								};
+								let stale_settled = match settle_epoch {
+									Some(se) if se < ep => ((se + 1)..=ep).any(|k| self.older_than_fulfil(k, &self.pays[ix])),
+									_ => false,
+								};
+								let dusty = self.pays[ix].dusty;
+								let claimed = self.recip_claimed.contains(&h);
+								if stale_settled {
+									self.pays[ix].stale_failed = true;
+									self.bad_stale("after a restart from a manager older than the settlement (it had not processed the fulfil; the monitors had), PaymentFailed is reported for a payment whose claim was settled before the restart".to_string());
+								} else if self.pays[ix].stale_live {
+									if n > 0 || (claimed && !dusty) {
+										self.bad_stale("a restart from an older manager failed an HTLC that is live in the newer monitor of its channel (added to the holding cell or sent before, committed after the manager was persisted); PaymentFailed is reported while that HTLC is still pending".to_string());
 									}
-									self.bad_stale("after a restart from a manager older than the settlement, PaymentFailed is reported for a payment whose claim was settled (PaymentSent had been reported) before the restart".to_string());
 								} else {
 									if n > 0 {
 										self.bad(format!(
@@ -217,14 +329,13 @@ impl<'p> World<'p> {
 											n
 										));
 									}
-									let dusty = self.pays.iter().any(|p| p.hash == h && p.dusty);
-									if self.recip_claimed.contains(&h) && !dusty {
+									if claimed && !dusty {
 										self.bad("PaymentFailed although the recipient claimed the payment".to_string());
 									}
 								}
-							}
-							if let Some(p) = self.pays.iter_mut().find(|p| p.id == *payment_id) {
+								let p = &mut self.pays[ix];
 								p.failed.push(ep);
+								p.resolutions.push((step, ep));
 							}
 						},
 						_ => {},
@@ -237,7 +348,11 @@ impl<'p> World<'p> {
 							self.recip_claimed.insert(*payment_hash);
 							let ep = self.epoch;
 							self.claimed_epoch.entry(*payment_hash).or_insert(ep);
-							let failed = self.pays.iter().any(|p| p.hash == *payment_hash && !p.failed.is_empty() && !p.dusty && !p.stale_failed);
+							let failed = self.pays.iter().any(|p| p.hash == *payment_hash && !p.failed.is_empty() && !p.dusty && !p.stale_failed && !p.stale_live);
+							let failed_stale = self.pays.iter().any(|p| p.hash == *payment_hash && !p.failed.is_empty() && !p.dusty && !p.stale_failed && p.stale_live);
+							if failed_stale {
+								self.bad_stale("a restart from an older manager failed an HTLC that is live in the newer monitor; after PaymentFailed the recipient's claim of it was accepted".to_string());
+							}
 							if failed {
 								self.bad("the recipient's claim was accepted after the sender had reported PaymentFailed".to_string());
 							}
@@ -264,6 +379,15 @@ impl<'p> World<'p> {
 					self.mempool.push(tx);
 					progressed = true;
 				}
+			}
+		}
+		// what forwarding and event handling produced
+		for i in 0..nodes.len() {
+			if i == 0 && self.frozen {
+				continue;
+			}
+			if self.collect_msgs(nodes, i) {
+				progressed = true;
 			}
 		}
 		progressed
@@ -368,9 +492,8 @@ impl<'p> World<'p> {
 					break;
 				}
 				self.complete_updates(nodes, i);
-				if !(i == 0 && self.frozen) {
-					let _ = nodes[i].node.get_and_clear_pending_events();
-				}
+				// (completion actions run when the node is polled; nothing it reports may be lost)
+				let _ = self.fetch(nodes);
 			}
 			self.persisters[i].update_rets.lock().unwrap().clear();
 		}
@@ -456,7 +579,8 @@ impl<'p> World<'p> {
 		let (preimage, hash, secret) = get_payment_preimage_hash(&nodes[self.recipient], Some(amt), None);
 		let id = PaymentId(hash.0);
 		let cur_epoch = self.epoch;
-		self.pays.push(Pay { id, hash, preimage, amt, accepted: false, sent: vec![], failed: vec![], stale_failed: false, dusty: amt < 2_000_000, epoch: cur_epoch });
+		let cur_step = self.step;
+		self.pays.push(Pay { id, hash, preimage, amt, accepted: false, sent: vec![], failed: vec![], stale_failed: false, stale_live: false, created_step: cur_step, resolutions: vec![], dusty: amt < 2_000_000, epoch: cur_epoch });
 		(hash, preimage, secret, id)
 	}
 
@@ -515,6 +639,8 @@ impl<'p> World<'p> {
 					self.pays.pop();
 					return;
 				}
+				// (each part on its own: too small for an output of its own?)
+				self.pays.last_mut().unwrap().dusty = amt / 2 < 2_000_000;
 				let route = lightning::routing::router::Route { paths, route_params: self.route_params(nodes, amt) };
 				let r = nodes[0].node.send_payment_with_route(route, hash, onion, id);
 				self.pays.last_mut().unwrap().accepted = r.is_ok();
@@ -609,7 +735,12 @@ impl<'p> World<'p> {
 				self.advance(nodes, k);
 			},
 			"tick" => nodes[(num(1) as usize) % n].node.timer_tick_occurred(),
-			"snapshot" => self.snapshots.push(nodes[0].node.encode()),
+			"snapshot" => self.take_snapshot(nodes),
+			"halfpoll" => {
+				// the sender's messages are fetched (its manager thereby takes the MonitorEvents out of
+				// the monitors), its events are not handled: the point where a crash loses MonitorEvents
+				let _ = self.collect_msgs(nodes, 0);
+			},
 			"freeze" => self.frozen = true,
 			"unfreeze" => self.frozen = false,
 			_ => {},
@@ -617,7 +748,7 @@ impl<'p> World<'p> {
 		let _ = self.fetch(nodes);
 		// every step boundary is a state the sender may have persisted
 		if self.autosnap && self.snapshots.len() < 40 && self.step % 3 == 0 {
-			self.snapshots.push(nodes[0].node.encode());
+			self.take_snapshot(nodes);
 		}
 	}
 
@@ -666,6 +797,7 @@ impl<'p> World<'p> {
 		let recent = nodes[0].node.list_recent_payments();
 		let mut out = Vec::new();
 		let mut stale_out = Vec::new();
+		let mut lost_out = Vec::new();
 		for p in self.pays.iter() {
 			if !p.accepted {
 				continue;
@@ -680,26 +812,45 @@ impl<'p> World<'p> {
 			if p.stale_failed {
 				continue;
 			}
+			// a restart used a manager older than the handling of a resolution of this payment (or of
+			// one of its parts): the monitor was told the resolution is complete and never repeats it
+			let lost_resolution = (1..=self.epoch).any(|k| {
+				let (snap_step, _, _) = &self.reloads[k - 1];
+				p.resolutions.iter().any(|(st, ep)| *ep < k && *st > *snap_step)
+			});
+			let mut mine = Vec::new();
 			if !p.sent.is_empty() && !p.failed.is_empty() {
-				out.push(format!("payment {}: both PaymentSent and PaymentFailed were reported", tag));
+				mine.push(format!("payment {}: both PaymentSent and PaymentFailed were reported", tag));
 			}
 			for ep in 0..=self.epoch {
 				if p.sent.iter().filter(|e| **e == ep).count() > 1 || p.failed.iter().filter(|e| **e == ep).count() > 1 {
-					out.push(format!("payment {}: a terminal event was reported twice without a restart in between", tag));
+					mine.push(format!("payment {}: a terminal event was reported twice without a restart in between", tag));
 				}
 			}
 			if claimed && p.sent.is_empty() && !p.dusty {
-				out.push(format!("payment {}: the recipient's claim was settled but PaymentSent was never reported", tag));
+				mine.push(format!("payment {}: the recipient's claim was settled but PaymentSent was never reported", tag));
 			}
 			if !claimed && !p.sent.is_empty() {
-				out.push(format!("payment {}: PaymentSent although the recipient never claimed", tag));
+				mine.push(format!("payment {}: PaymentSent although the recipient never claimed", tag));
 			}
+			if p.stale_live {
+				// consequences of the startup failure of a live HTLC
+				for m in mine {
+					stale_out.push(format!("{} (a restart from an older manager had failed an HTLC of it that is live in the newer monitor)", m));
+				}
+				continue;
+			}
+			out.extend(mine);
 			if p.sent.is_empty() && p.failed.is_empty() {
 				if listed_pending && pending == 0 {
-					out.push(format!(
-						"payment {}: after quiescence it is still listed as pending although no HTLC of it exists anywhere: it never gets a terminal event and its id is refused forever",
-						tag
-					));
+					if lost_resolution {
+						lost_out.push(format!("payment {}: the failure of one of its parts was handled before a restart from a manager older than that; afterwards the restored manager waits for that part for ever: the payment stays pending without any HTLC and never gets a terminal event", tag));
+					} else {
+						out.push(format!(
+							"payment {}: after quiescence it is still listed as pending although no HTLC of it exists anywhere: it never gets a terminal event and its id is refused forever",
+							tag
+						));
+					}
 				} else if listed_pending {
 					out.push(format!("payment {}: after quiescence it is still pending with {} HTLC(s)", tag, pending));
 				} else if self.epoch == 0 {
@@ -708,9 +859,8 @@ impl<'p> World<'p> {
 					out.push(format!("payment {}: forgotten across a restart while an HTLC of it is still pending", tag));
 				}
 			} else if listed_pending {
-				let last_terminal = p.sent.iter().chain(p.failed.iter()).max().cloned().unwrap_or(0);
-				if last_terminal < self.epoch {
-					stale_out.push(format!("payment {}: its terminal event was handled before a restart from an older manager; afterwards it stays listed as pending for ever (the monitor was told the resolution is complete, the restored manager never hears of it again)", tag));
+				if lost_resolution {
+					lost_out.push(format!("payment {}: its terminal event was handled before a restart from a manager older than that; afterwards it stays listed as pending for ever (the monitor was told the resolution is complete, the restored manager never hears of it again)", tag));
 				} else {
 					out.push(format!("payment {}: a terminal event was reported but the payment is still listed as pending", tag));
 				}
@@ -721,6 +871,10 @@ impl<'p> World<'p> {
 		}
 		for o in stale_out {
 			self.bad_stale(o);
+		}
+		for o in lost_out {
+			let st = self.step;
+			self.violations.push((st, "lost", o));
 		}
 	}
 }
@@ -858,6 +1012,9 @@ fn main() {
 		decided: Vec::new(),
 		recip_claimed: HashSet::new(),
 		snapshots: Vec::new(),
+		snap_info: Vec::new(),
+		reloads: Vec::new(),
+		scids: std::collections::HashMap::new(),
 		commit_snaps: Vec::new(),
 		epoch: 0,
 		step: 0,
@@ -869,6 +1026,11 @@ fn main() {
 		first_after_reload: false,
 		recipient: n - 1,
 	};
+	for ch in nodes[0].node.list_channels() {
+		for scid in [ch.short_channel_id, ch.outbound_scid_alias, ch.inbound_scid_alias].iter().flatten() {
+			w.scids.insert(*scid, ch.channel_id);
+		}
+	}
 	// every node on the same height
 	let top = nodes.iter().map(|nd| nd.best_block_info().1).max().unwrap();
 	for nd in nodes.iter() {
@@ -883,7 +1045,7 @@ fn main() {
 		node.tx_broadcaster.txn_broadcasted.lock().unwrap().clear();
 	}
 	w.mempool.clear();
-	w.snapshots.push(nodes[0].node.encode());
+	w.take_snapshot(&nodes);
 
 	let mut panic_msg = run_phase(&nodes, &mut w, &phases[0]);
 
@@ -896,7 +1058,13 @@ fn main() {
 					for p in peers {
 						w.disconnect(&nodes, 0, p);
 					}
-					let snap = w.snapshots[reload_args[$k - 1] % w.snapshots.len()].clone();
+					// k >= 1000: counted back from the latest snapshot
+					let arg = reload_args[$k - 1];
+					let which = if arg >= 1000 { w.snapshots.len() - 1 - ((arg - 1000) % w.snapshots.len()) } else { arg % w.snapshots.len() };
+					let snap = w.snapshots[which].clone();
+					let (snap_step, snap_pending) = w.snap_info[which].clone();
+					let now = w.step;
+					w.reloads.push((snap_step, snap_pending, now));
 					let mons = monitors_of(&nodes[0]);
 					(snap, mons)
 				}));
@@ -929,8 +1097,9 @@ fn main() {
 								w.inprogress[0] = false;
 								w.epoch += 1;
 								w.snapshots.clear();
-								w.snapshots.push(nodes[0].node.encode());
+								w.snap_info.clear();
 								w.step += 1;
+								w.take_snapshot(&nodes);
 								w.first_after_reload = true;
 								let r2 = panic::catch_unwind(AssertUnwindSafe(|| {
 									let _ = w.fetch(&nodes);
